@@ -1,6 +1,8 @@
 use cfg_aliases::cfg_aliases;
 
 fn main() {
+    // cfg used to guard verification hooks
+    println!("cargo::rustc-check-cfg=cfg(iroh_docs_verif)");
     // Setup cfg aliases
     cfg_aliases! {
         // Convenience aliases
